@@ -136,8 +136,9 @@ type bfScenario struct {
 	rng     *rand.Rand
 	// forward syncing: blocks above the initial target are handed to UpdateSyncTarget by "update" script entries,
 	// executed while the client goroutine waits inside FetchBlocksFromPeer (so they never race with its block loop)
-	update func(h int) error
-	tgt    int
+	update  func(h int) error
+	tgt     int
+	tailPos int
 }
 
 func (s *bfScenario) log(m map[string]any) {
@@ -196,7 +197,7 @@ func (s *bfScenario) Sample(_ context.Context, _ int) []ids.NodeID {
 	s.runUpdates()
 	if s.peekBehaviour() == "nopeer" {
 		s.nextBehaviour()
-		s.log(map[string]any{"ev": "resp", "beh": "nopeer", "h": -1, "blocks": []map[string]any{}})
+		s.log(map[string]any{"ev": "nopeer"})
 		return nil
 	}
 	return []ids.NodeID{ids.GenerateTestNodeID()}
@@ -286,6 +287,25 @@ func (s *bfScenario) FetchBlocksFromPeer(ctx context.Context, nodeID ids.NodeID,
 				if len(blocks) >= 2 {
 					blocks[0], blocks[1] = blocks[1], blocks[0]
 				}
+			case "tail-garbage", "tail-forged", "tail-otherheight":
+				// a correctly linked prefix followed by a bad block at position s.tailPos (1-based, >= 2 when possible)
+				k := s.tailPos
+				if k >= len(blocks) {
+					k = len(blocks) - 1
+				}
+				if k < 0 {
+					k = 0
+				}
+				switch beh {
+				case "tail-garbage":
+					blocks[k] = []byte("{not a block")
+				case "tail-forged":
+					if b, perr := bfParse(blocks[k]); perr == nil {
+						blocks[k] = bfMake(b.parent, b.wire.Height, b.wire.Ts, []bfTx{{N: 900 + int(b.wire.Height), Expiry: 1 << 40}}, 3).bytes
+					}
+				case "tail-otherheight":
+					blocks = append(blocks[:k], blocks[k+1:]...) // the block at this position is missing: the next one does not link
+				}
 			case "dup":
 				blocks = append([][]byte{blocks[0]}, blocks...)
 			}
@@ -306,19 +326,26 @@ func (s *bfScenario) SaveHistorical(blk validitywindow.ExecutionBlock[bfTx]) err
 	return nil
 }
 
-var bfBehaviours = []string{"partial", "truncated", "forged", "reordered", "swapped", "dup", "otherheight", "fork", "empty", "error", "nopeer"}
+var bfBehaviours = []string{"partial", "truncated", "forged", "tail-garbage", "tail-forged", "tail-otherheight", "reordered", "swapped", "dup", "otherheight", "fork", "empty", "error", "nopeer"}
 
 func bfRunScenario(seed int64, idx int, tier string, dir string) error {
 	rng := rand.New(rand.NewSource(seed*7_000_003 + int64(idx)))
 	s := &bfScenario{bid: map[ids.ID]int{}, nextBid: 99, rng: rng}
 	n0 := 2 + rng.Intn(6) // height of the initial sync target
 	nf := rng.Intn(3)     // blocks consensus delivers while the backfill runs
+	have := rng.Intn(3)   // ancestors of the target the node already has
+	tailScenario := idx%4 == 1
+	if tailScenario { // long answers: 7-8 blocks to fetch
+		n0, nf, have = 7+rng.Intn(2), 0, 0
+	}
 	n := n0 + nf
-	have := rng.Intn(3) // ancestors of the target the node already has
 	if have > n0-1 {
 		have = n0 - 1
 	}
 	win := int64([]int{1, 2, 3, 5, 8, 1000}[rng.Intn(6)]) // 1000: the chain is younger than the window
+	if tailScenario {
+		win = 1000
+	}
 	// timestamps: non-decreasing, blocks may share a timestamp; often the oldest block the node has shares its
 	// timestamp with its parent (and grand-parent)
 	tss := make([]int64, n+1)
@@ -398,6 +425,15 @@ func bfRunScenario(seed int64, idx int, tier string, dir string) error {
 			at = rng.Intn(len(s.script) + 1)
 		}
 		s.script = append(s.script[:at], append([]string{"update"}, s.script[at:]...)...)
+	}
+	if idx%4 == 1 {
+		// dedicated: good linked prefix + bad tail at a chosen position, then honest (partial) answers
+		kinds := []string{"tail-garbage", "tail-forged", "tail-otherheight"}
+		s.tailPos = 1 + (idx/4)%5
+		s.script = []string{kinds[(idx/12)%3]}
+		if (idx/4)%2 == 0 {
+			s.script = append(s.script, "partial", "partial")
+		}
 	}
 	s.handler = validitywindow.NewBlockFetcherHandler[validitywindow.ExecutionBlock[bfTx]](bfRetriever{chain: s.chain})
 	s.log(map[string]any{"ev": "reset", "sc": idx, "n": n, "n0": n0, "win": win, "ts": tss, "have": have, "txs": txsLog, "script": append([]string{"-"}, s.script...)})
